@@ -3,6 +3,7 @@ package props
 import (
 	"fmt"
 	"go/token"
+	"go/types"
 	"strings"
 
 	"golang.org/x/tools/go/ssa"
@@ -226,6 +227,7 @@ func runC03(c *Ctx) {
 	c.R.RequireMin("R03.7", "Copyright Match literals", nCopyright, 1)
 
 	checkOrdering(c, p)
+	checkResultIsRetained(c, p)
 	checkKeyFormat(c, p, "R03.6")
 	checkKeyComponents(c, p)
 
@@ -666,6 +668,89 @@ func checkOrdering(c *Ctx, p *core.Prog) {
 		okFilter, why = orderPreservingFilter(m, fam, site.Call)
 	}
 	c.R.Check(okFilter, "R03.4", "match: the returned matches are an order-preserving filter of the sorted candidates", pos, why, why)
+}
+
+// checkResultIsRetained: R03.4b. The matches returned are exactly the candidates that the overlap filter retained: the
+// append that builds the result is guarded by the candidate's retain flag and by nothing else (no further
+// de-duplication or cut-off after the filter).
+func checkResultIsRetained(c *Ctx, p *core.Prog) {
+	fn := p.Func(v2pkg, "(*Classifier).match")
+	if fn == nil {
+		return
+	}
+	n := 0
+	for _, lit := range structLits([]*ssa.Function{fn}, "/v2.Results") {
+		m := lit.fields["Matches"]
+		if m == nil {
+			continue
+		}
+		for v := range sliceFamily(m) {
+			call, ok := v.(*ssa.Call)
+			if !ok {
+				continue
+			}
+			if bi, isB := call.Call.Value.(*ssa.Builtin); !isB || bi.Name() != "append" {
+				continue
+			}
+			n++
+			flag, extra := false, ""
+			// only the decisions taken inside the loop that builds the result
+			var h *ssa.BasicBlock
+			for d := call.Block(); d != nil && h == nil; d = d.Idom() {
+				for _, pr := range d.Preds {
+					if d.Dominates(pr) && reaches(call.Block(), d) {
+						h = d
+					}
+				}
+			}
+			// the branches the append is (transitively) control dependent on, inside that loop
+			tcd := core.NewPostDom(fn).TransitiveControlDeps()
+			for db := range tcd[call.Block()] {
+				if h == nil || !h.Dominates(db) || !reaches(db, h) {
+					continue
+				}
+				ifi, isIf := db.Instrs[len(db.Instrs)-1].(*ssa.If)
+				if !isIf {
+					continue
+				}
+				cond := ifi.Cond
+				for {
+					if u, isU := cond.(*ssa.UnOp); isU && u.Op == token.NOT {
+						cond = u.X
+						continue
+					}
+					break
+				}
+				// retain[i]: a boolean loaded from an element of a []bool
+				if ld, isLd := cond.(*ssa.UnOp); isLd {
+					if ia, isIA := ld.X.(*ssa.IndexAddr); isIA {
+						if sl, isSl := ia.X.Type().Underlying().(*types.Slice); isSl && isBool(sl.Elem()) {
+							flag = true
+							continue
+						}
+					}
+				}
+				if bo, isBo := cond.(*ssa.BinOp); isBo && (bo.Op == token.LSS || bo.Op == token.GEQ) {
+					if _, isPhi := bo.X.(*ssa.Phi); isPhi || ascendingIndex(bo.X) {
+						continue // the bound of the loop over the candidates
+					}
+				}
+				if _, isEx := cond.(*ssa.Extract); isEx {
+					continue // ok of a range step
+				}
+				extra = eng.Describe(cond) + " (" + p.Pos(cond.Pos()) + ")"
+			}
+			ok2 := flag && extra == ""
+			why := "the append is guarded by the candidate's retain flag only"
+			if !flag {
+				why = "the append that builds the result is not guarded by the retain flag of the candidate"
+			} else if extra != "" {
+				why = "besides the retain flag, " + extra + " decides whether a retained candidate is returned: candidates that passed the overlap filter are dropped afterwards (a de-duplication collapses the Copyright matches, which carry no token span, into one)"
+			}
+			c.R.Check(ok2, "R03.4", "match: every candidate the overlap filter retained is returned", p.Pos(call.Pos()), why, why)
+		}
+	}
+	c.R.RequireMin("R03.4", "appends that build the returned matches", n, 1)
 }
 
 func firstKeyDesc(cmp *eng.CmpResult) string {
